@@ -96,6 +96,8 @@ structure Run where
   outs : Array String := #[]
   names : List Str := []
   leakedVars : Bool := false
+  /-- keys the embedder chose itself (`__foreignlist`): printed as they are -/
+  custom : List Str := []
 
 def pushVal (r : Run) (st : ScriptSt) (o : Option Str) : Run :=
   match o with
@@ -108,6 +110,9 @@ def step (r : Run) : DOp → Run
   | .foreign tag =>
     let (c', h) := putHandle r.st.coll (.other tag)
     pushVal r { r.st with coll := c' } (some h)
+  | .foreignList key =>
+    let st' : ScriptSt := { r.st with coll := { r.st.coll with tbl := tinsert r.st.coll.tbl key Duck.Drv.C12.foreignListValue } }
+    { r with st := st', raw := r.raw.push (.val (some key)), outs := r.outs.push (encStr key), custom := key :: r.custom }
   | .cmd c a =>
     let args := a.map (resolve r.raw)
     match fromSource c with
@@ -135,10 +140,11 @@ def encValueR (names : List Str) : Value → String
   | .set s => "S[" ++ ",".intercalate (sortStrings (s.map fun x => encStr (rename names x))) ++ "]"
   | .other t => "O" ++ toString t
 
-def encTableR (names : List Str) (t : Table) : String :=
+def encTableR (names custom : List Str) (t : Table) : String :=
   if t.isEmpty then "-" else
   ";".intercalate (sortStrings (t.map fun (h, v) =>
-    let key := if names.contains h then rename names h else "LEAKED-HANDLE:".toList ++ (encValueR names v).toList
+    let key := if names.contains h then rename names h else if custom.contains h then h
+               else "LEAKED-HANDLE:".toList ++ (encValueR names v).toList
     encStr key ++ "=" ++ encValueR names v))
 
 def handle (toks : List String) : Option String :=
@@ -148,7 +154,7 @@ def handle (toks : List String) : Option String :=
     | none => some "BAD-REQUEST"
     | some l =>
       let r := l.foldl step {}
-      some ((if r.outs.isEmpty then "-" else ",".intercalate r.outs.toList) ++ " " ++ encTableR r.names r.st.coll.tbl
+      some ((if r.outs.isEmpty then "-" else ",".intercalate r.outs.toList) ++ " " ++ encTableR r.names r.custom r.st.coll.tbl
         ++ (if r.leakedVars then " LEAKED-VARIABLES" else ""))
   | _ => none
 
